@@ -68,6 +68,46 @@ def parseEnvUser (s : String) : Option (Option Name) :=
 def parseLiteral (s : String) : Option (Option IP) :=
   if s == "none" then some none else (parseHex s).map some
 
+/-- the `net.ParseIP` oracle: `none` (nothing is a literal), `<hex>` (the constant answer, old form), or a
+    table `T<hex text>=<hex ip|none>,…` of Go's answers for exactly those texts (any other text: not a literal) -/
+def parseOracleTable (s : String) : Option (List (Name × Option IP)) :=
+  (splitList s ",").mapM fun e =>
+    match e.splitOn "=" with
+    | [q, a] => do
+      let q ← parseHex q
+      let a ← parseLiteral a
+      pure (q, a)
+    | _ => none
+
+def oracleOfTable (t : List (Name × Option IP)) : Name → Option IP :=
+  fun n => match t.find? (·.1 == n) with
+    | some (_, a) => a
+    | none => none
+
+def parseOracle (s : String) : Option (Name → Option IP) :=
+  if s.startsWith "T" then (parseOracleTable (s.drop 1).toString).map oracleOfTable
+  else (parseLiteral s).map fun lit => fun _ => lit
+
+def relayStr : Relay → String
+  | .invalid => "invalid"
+  | .dropped => "dropped"
+  | .unresolvable => "unresolvable"
+  | .send t => s!"send:{match t with | .ip ip port => s!"ip:{toHex ip}:{port}" | .name n port => s!"name:{toHex n}:{port}" | .emptyHost port => s!"empty:{port}"}"
+
+def dialledStr : Dialled → String
+  | .addr ip port => s!"addr:{toHex ip}:{port}"
+  | .localPort port => s!"local:{port}"
+  | .unresolved => "unresolved"
+
+/-- `<lit> <hex pkt>` pairs of `socks-udp-run` -/
+def parseRunArgs : List String → Option (List (String × List UInt8))
+  | [] => some []
+  | l :: p :: rest => do
+    let pkt ← parseHex p
+    let more ← parseRunArgs rest
+    pure ((l, pkt) :: more)
+  | _ => none
+
 def actionName : Action → String
   | .proxy => "PROXY" | .direct => "DIRECT" | .reject => "REJECT"
 
@@ -89,7 +129,11 @@ def b01 (b : Bool) : String := if b then "1" else "0"
   socks-req <user> <literal> <hex data>      → ok noreply | ok reply <code> | ok connect <target> | ok associate | ok forward <choices>
   socks-udp <user> <literal> <hex datagram>  → ok invalid | ok dropped | ok unresolvable | ok send <target>
   fold-eq <hex s> <hex t>                    → ok <0|1>    (strings.EqualFold for ASCII t)
-  `user`: none | u<hex>;  `literal`: none | <hex> = net.ParseIP of the request's domain name
+  cut-zone <hex s>                           → ok <hex>    (parseIPLiteral's zone cut)
+  socks-req-r <user> <literal> <resolve> <hex data> → ok noreply | ok reply <code> | ok dial <addr:hex:port|local:port|unresolved> | ok associate | ok forward <choices>
+                                                (`resolve`: none | <hex ip> = what the server's resolver + SelectIPFromList give for the request's name)
+  socks-udp-run <stream|datagram> <user> {<literal> <hex datagram>}…  → ok <ev>…  (ev: notread | invalid | dropped | unresolvable | send:<target>)
+  `user`: none | u<hex>;  `literal`: none | <hex> (constant answer) | T<hex text>=<hex ip|none>,… (net.ParseIP's answers for these texts)
 -/
 def handler : IO Handler := do
   let cfgRef ← IO.mkRef (⟨[], [], [], false⟩ : Config)
@@ -108,17 +152,17 @@ def handler : IO Handler := do
       | some cfg => cfgRef.set cfg; pure (some "ok")
       | none => pure (some "bad-op")
     | "egress", [proto, user, lit, data] =>
-      match parseBool proto, parseEnvUser user, parseLiteral lit, parseHex data with
+      match parseBool proto, parseEnvUser user, parseOracle lit, parseHex data with
       | some proto, some user, some lit, some data =>
         let cfg ← cfgRef.get
-        let d := findAction cfg (fun _ => lit) proto user data
+        let d := findAction cfg lit proto user data
         pure <| some s!"ok {actionName d.action} {choicesStr d.proxyChoices}"
       | _, _, _, _ => pure (some "bad-op")
     | "socks-req", [user, lit, data] =>
-      match parseEnvUser user, parseLiteral lit, parseHex data with
+      match parseEnvUser user, parseOracle lit, parseHex data with
       | some user, some lit, some data =>
         let cfg ← cfgRef.get
-        pure <| some <| match serveRequest cfg (fun _ => lit) user data with
+        pure <| some <| match serveRequest cfg lit user data with
           | .noReply => "ok noreply"
           | .reply c => s!"ok reply {c.toNat}"
           | .connect t => s!"ok connect {targetStr t}"
@@ -126,14 +170,41 @@ def handler : IO Handler := do
           | .forward cs => s!"ok forward {choicesStr cs}"
       | _, _, _ => pure (some "bad-op")
     | "socks-udp", [user, lit, pkt] =>
-      match parseEnvUser user, parseLiteral lit, parseHex pkt with
+      match parseEnvUser user, parseOracle lit, parseHex pkt with
       | some user, some lit, some pkt =>
         let cfg ← cfgRef.get
-        pure <| some <| match relayDatagram cfg (fun _ => lit) user pkt with
+        pure <| some <| match relayDatagram cfg lit user pkt with
           | .invalid => "ok invalid"
           | .dropped => "ok dropped"
           | .unresolvable => "ok unresolvable"
           | .send t => s!"ok send {targetStr t}"
+      | _, _, _ => pure (some "bad-op")
+    | "cut-zone", [s] =>
+      match parseHex s with
+      | some s => pure <| some s!"ok {toHex (cutZone s)}"
+      | none => pure (some "bad-op")
+    | "socks-req-r", [user, lit, res, data] =>
+      match parseEnvUser user, parseOracle lit, parseLiteral res, parseHex data with
+      | some user, some lit, some res, some data =>
+        let cfg ← cfgRef.get
+        pure <| some <| match serveRequestR cfg lit (fun _ => res) user data with
+          | .noReply => "ok noreply"
+          | .reply c => s!"ok reply {c.toNat}"
+          | .dial d => s!"ok dial {dialledStr d}"
+          | .associate => "ok associate"
+          | .forward cs => s!"ok forward {choicesStr cs}"
+      | _, _, _, _ => pure (some "bad-op")
+    | "socks-udp-run", mode :: user :: rest =>
+      let mode? : Option RelayMode := if mode == "stream" then some .stream else if mode == "datagram" then some .datagram else none
+      match mode?, parseEnvUser user, parseRunArgs rest with
+      | some mode, some user, some items =>
+        -- one oracle for the whole association: the union of the per-datagram tables
+        let tables := items.map fun (l, _) => if l == "none" then some [] else if l.startsWith "T" then parseOracleTable (l.drop 1).toString else none
+        if tables.any (·.isNone) then pure (some "bad-op") else
+        let table := (tables.map fun t => t.getD []).flatten
+        let cfg ← cfgRef.get
+        let evs := (relayRun mode cfg (oracleOfTable table) user {} (items.map (·.2))).1
+        pure <| some <| "ok" ++ String.join (evs.map fun e => " " ++ match e with | .notRead => "notread" | .did r => relayStr r)
       | _, _, _ => pure (some "bad-op")
     | "fold-eq", [s, t] =>
       match parseHex s, parseHex t with
